@@ -59,6 +59,19 @@ def _drillhole(ws):
     return Drillhole.create(ws, collar=[1.0, 2.0, 3.0], surveys=real_np.c_[[0.0, 10.0], [0.0, 10.0], [-90.0, -80.0]])
 
 
+def _drillhole_int_cost(ws):
+    from geoh5py.objects import Drillhole
+    return Drillhole.create(ws, collar=[1.0, 2.0, 3.0], surveys=real_np.c_[[0.0, 10.0], [0.0, 10.0], [-90.0, -80.0]],
+                            cost=100)
+
+
+def _drillhole_int_eoh(ws):
+    from geoh5py.objects import Drillhole
+    dh = Drillhole.create(ws, collar=[1.0, 2.0, 3.0], surveys=real_np.c_[[0.0, 10.0], [0.0, 10.0], [-90.0, -80.0]])
+    dh.end_of_hole = 250
+    return dh
+
+
 def _floatdata(ws):
     p = _points(ws)
     return p.add_data({"fd": {"values": real_np.array([1.0, 2.0, 3.0])}})
@@ -228,6 +241,8 @@ CASES = {
     "Drillhole.surveys": (_drillhole, "surveys", v_surveys, DH),
     "Drillhole.cost": (_drillhole, "cost", v_real("r"), DH),
     "Drillhole.end_of_hole": (_drillhole, "end_of_hole", v_real("r"), DH),
+    "Drillhole.cost(int-created)": (_drillhole_int_cost, "cost", v_real("r"), DH),
+    "Drillhole.end_of_hole(int-created)": (_drillhole_int_eoh, "end_of_hole", v_real("r"), DH),
     "Drillhole.planning": (_drillhole, "planning", v_const("Ongoing"), DH),
     "FloatData.values": (_floatdata, "values", v_float_values, ()),
     "FloatData.name": (_floatdata, "name", v_const("renamed"), ()),
@@ -278,10 +293,12 @@ def _norm(v):
         return v.name
     if isinstance(v, (list, tuple)):
         return [_norm(x) for x in v]
-    try:
-        return ("array", tuple(shape(v)), elems(v))
-    except Exception:  # noqa: BLE001
-        return repr(v)
+    if hasattr(v, "shape") and hasattr(v, "dtype"):
+        try:
+            return ("array", tuple(shape(v)), elems(v))
+        except Exception:  # noqa: BLE001
+            pass
+    return "<" + type(v).__name__ + ">"
 
 
 def _same(a, b):
@@ -378,7 +395,12 @@ class SetAttribute(Scenario):
             # O2: stored == in-memory, through a fresh reader
             uid = getattr(ent, "uid", None)
             ws.close()
-            ws2 = Workspace(ws.h5file)
+            try:
+                ws2 = Workspace(ws.h5file)
+            except Exception as e:  # noqa: BLE001
+                cx.prove(False, f"{keys[0]}: value read by a fresh Workspace == in-memory value",
+                         "stored == in-memory")
+                return f"re-open raised {type(e).__name__}"
             if ent is ws:
                 e2 = ws2
             elif isinstance(ent, EntityType):
@@ -397,6 +419,20 @@ class SetAttribute(Scenario):
                         back = f"<unreadable {type(e).__name__}>"
                     cx.prove(_same(back, live[attr]), f"{key}: value read by a fresh Workspace == in-memory value",
                              "stored == in-memory")
+                # the whole entity: every mapped attribute a fresh reader sees equals the in-memory one
+                amap = getattr(ent, "attribute_map", None) or getattr(ent, "_attribute_map", None)
+                if isinstance(amap, dict):
+                    for name in sorted({v.split(":")[0].strip() for v in amap.values()}):
+                        if name in ("uid", "on_file", "parent", "entity_type", "concatenated_attributes", "property_groups"):
+                            continue
+                        try:
+                            lv, bv = _norm(getattr(ent, name)), _norm(getattr(e2, name))
+                        except Exception:  # noqa: BLE001
+                            continue
+                        if isinstance(lv, str) and lv.startswith("<") or isinstance(bv, str) and bv.startswith("<"):
+                            continue
+                        cx.prove(_same(bv, lv), f"{keys[0]}: after the assignment, mapped attribute '{name}' read by a fresh "
+                                                f"Workspace == in-memory value", "stored == in-memory (whole entity)")
             ws2.close()
             return "ok"
 
